@@ -37,6 +37,32 @@ func newMemStore() *memStore {
 	return &memStore{chunks: map[desync.ChunkID][]byte{}, fail: map[int]bool{}}
 }
 
+// cancelBar is a ProgressBar that cancels a context when progress has been reported k times (Increment / Add calls):
+// a cancellation that arrives from inside a worker, between two of its jobs
+type cancelBar struct {
+	mu     sync.Mutex
+	calls  int
+	k      int
+	cancel context.CancelFunc
+}
+
+func (b *cancelBar) tick() int {
+	b.mu.Lock()
+	defer b.mu.Unlock()
+	if b.calls == b.k && b.cancel != nil {
+		b.cancel()
+	}
+	b.calls++
+	return b.calls
+}
+func (b *cancelBar) SetTotal(int)                {}
+func (b *cancelBar) Start()                      {}
+func (b *cancelBar) Finish()                     {}
+func (b *cancelBar) Increment() int              { return b.tick() }
+func (b *cancelBar) Add(int) int                 { return b.tick() }
+func (b *cancelBar) Set(int)                     {}
+func (b *cancelBar) Write(p []byte) (int, error) { return len(p), nil }
+
 // memStoreHook, when set, is called at every call of every memStore (C07: cancellation from inside a store call)
 var memStoreHook func()
 
@@ -319,6 +345,63 @@ func runC07(cfg Config) {
 				if r.err == nil && !r.complete {
 					monitor(fmt.Sprintf("%s reported success although its work is incomplete (%s)", f.name, r.detail), caseLine)
 					break
+				}
+			}
+		}
+	}
+
+	// cancellation from inside a worker, at the k-th progress report (the progress bar is the caller's): the
+	// feeder may have handed out everything by then; what the workers still hold must not be dropped quietly
+	{
+		type pfn struct {
+			name string
+			run  func(ctx context.Context, n int, pb desync.ProgressBar) result
+		}
+		pfns := []pfn{
+			{"VerifyIndex(mismatch in last chunk)", func(ctx context.Context, n int, pb desync.ProgressBar) result {
+				err := desync.VerifyIndex(ctx, badFile, idx, n, pb)
+				return result{err, false, "the file differs from the index in its last byte"}
+			}},
+			{"ChopFile", func(ctx context.Context, n int, pb desync.ProgressBar) result {
+				ws := newMemStore()
+				err := desync.ChopFile(ctx, blobFile, idx.Chunks, ws, n, pb)
+				return result{err, len(ws.chunks) == len(data), fmt.Sprintf("stored %d of %d", len(ws.chunks), len(data))}
+			}},
+			{"Copy", func(ctx context.Context, n int, pb desync.ProgressBar) result {
+				ws := newMemStore()
+				err := desync.Copy(ctx, ids, full, ws, n, pb)
+				return result{err, len(ws.chunks) == len(data), fmt.Sprintf("copied %d of %d", len(ws.chunks), len(data))}
+			}},
+			{"UnTarIndex", func(ctx context.Context, n int, pb desync.ProgressBar) result {
+				fs := &recFS{}
+				err := desync.UnTarIndex(ctx, fs, tarIdx, tarStore, n, pb)
+				return result{err, len(fs.nodes) == wantNodes, fmt.Sprintf("%d of %d nodes", len(fs.nodes), wantNodes)}
+			}},
+		}
+		for _, f := range pfns {
+			for _, n := range ns {
+				count := &cancelBar{k: -1}
+				f.run(context.Background(), n, count)
+				T := count.calls
+				for k := 0; k < T; k++ {
+					for rep2 := 0; rep2 < 2; rep2++ {
+						ctx, cancel := context.WithCancel(context.Background())
+						done := make(chan result, 1)
+						go func() { done <- f.run(ctx, n, &cancelBar{k: k, cancel: cancel}) }()
+						var r result
+						select {
+						case r = <-done:
+						case <-time.After(20 * time.Second):
+							r = result{errors.New("hang"), false, "no return within 20 s"}
+							monitor("operation hangs after cancellation", fmt.Sprintf("cancel fn=%s n=%d at-progress=%d", f.name, n, k))
+						}
+						cancel()
+						caseLine := fmt.Sprintf("cancel fn=%s n=%d at-progress=%d of %d", f.name, n, k, T)
+						rep.Count(caseLine, true, "fn:"+f.name+"/progress", fmt.Sprintf("outcome:%s", map[bool]string{true: "nil", false: "error"}[r.err == nil]))
+						if r.err == nil && !r.complete {
+							monitor(fmt.Sprintf("%s reported success although its work is incomplete (%s)", f.name, r.detail), caseLine)
+						}
+					}
 				}
 			}
 		}
